@@ -107,6 +107,18 @@ CHECKS = {
              "Known finding: a foreign UPLOADED to a shared directory completes the wait (pinned by tests).",
         technique="Lean 4: step-machine invariants (tidy sets, not-missed) by induction over histories; differential correspondence through real create()",
         ref='§4 C15'),
+    'C16': dict(
+        text=("C16_codec (base64 <-> $hex identity conversion: each function undoes the other on every digest — byte/sextet arithmetic by omega, "
+              "alphabets by decide), C16_nothing_carried_over (for ANY prior state, incl. a reused Router object with stale values: after "
+              "_create_router the object under the identity has exactly the entry's attributes — bandwidth 0 without a w line, only its own IPv6 "
+              "addresses and flags — and a relay known before keeps its object), C16_guards_exact / C16_authorities_exact / C16_identities_exact "
+              "(after a replacement consensus these collections hold exactly what the new document prescribes). The parser machine incl. the "
+              "repaired 'p without w' transition is modelled. The equality of the whole six-index view with viewOfDoc is checked differentially: "
+              "real TorState (bootstrap ns/all + NEWCONSENSUS events) vs model view vs spec view after every document, plus object identity."),
+        note=NOTE_COMMON + "Partial: uniqueness of nicknames (routers[name]), by-name lists and identity preservation across documents are compared with the spec by the "
+             "correspondence run, not proved; line classification by the parser's lambdas is rendered by the harness (typed lines).",
+        technique="Lean 4: codec bijection (omega/decide), per-step and fold-invariant theorems on the index maintenance; differential correspondence of full views",
+        ref='§4 C16'),
     'C20': dict(
         text=("C20_refines: for EVERY history of ADDRMAP lines (all token forms: local-time field, EXPIRES=, NEVER, <error>, extra flags) and clock "
               "advances, with any expiry offset past or future, the model's map equals the spec's (Tor's latest mapping per name under the clock: "
